@@ -145,17 +145,34 @@ func (i *interpreter) strLess(x, y value) value {
 // ---------------------------------------------------------------------------
 // ordered maps
 
+// smap is an insertion-ordered map. Concrete scalar/string/pointer keys are
+// indexed by a host map; other keys (symbolic, struct, interface, array) are
+// found by a linear scan with symbolic-aware equality.
 type smap struct {
-	keyT types.Type
-	keys []value
-	vals []value
+	keyT  types.Type
+	keys  []value
+	vals  []value
+	dead  []bool
+	ndead int
+	index map[value]int // simple concrete key -> position
+	other []int         // positions of non-simple keys
+}
+
+type tomb struct{}
+
+func simpleKey(k value) bool {
+	switch k.(type) {
+	case bool, int, int8, int16, int32, int64, uint, uint8, uint16, uint32, uint64, uintptr, string, *value, *vchan:
+		return true
+	}
+	return false
 }
 
 func (m *smap) length() int {
 	if m == nil {
 		return 0
 	}
-	return len(m.keys)
+	return len(m.keys) - m.ndead
 }
 
 // find returns the index of key in m or -1, branching on symbolic equality.
@@ -163,8 +180,19 @@ func (i *interpreter) mapFind(m *smap, key value) int {
 	if m == nil {
 		return -1
 	}
+	if simpleKey(key) {
+		if k, ok := m.index[key]; ok {
+			return k
+		}
+		for _, k := range m.other {
+			if !m.dead[k] && i.truth(i.eqv(m.keyT, m.keys[k], key)) {
+				return k
+			}
+		}
+		return -1
+	}
 	for k := range m.keys {
-		if i.truth(i.eqv(m.keyT, m.keys[k], key)) {
+		if !m.dead[k] && i.truth(i.eqv(m.keyT, m.keys[k], key)) {
 			return k
 		}
 	}
@@ -179,18 +207,107 @@ func (i *interpreter) mapInsert(m *smap, key, v value) {
 		m.vals[k] = v
 		return
 	}
+	pos := len(m.keys)
 	m.keys = append(m.keys, key)
 	m.vals = append(m.vals, v)
+	m.dead = append(m.dead, false)
+	if simpleKey(key) {
+		if m.index == nil {
+			m.index = make(map[value]int)
+		}
+		m.index[key] = pos
+	} else {
+		m.other = append(m.other, pos)
+	}
 }
 
 func (i *interpreter) mapDelete(m *smap, key value) {
 	if m == nil {
 		return
 	}
-	if k := i.mapFind(m, key); k >= 0 {
-		m.keys = append(m.keys[:k:k], m.keys[k+1:]...)
-		m.vals = append(m.vals[:k:k], m.vals[k+1:]...)
+	k := i.mapFind(m, key)
+	if k < 0 {
+		return
 	}
+	if simpleKey(m.keys[k]) {
+		delete(m.index, m.keys[k])
+	} else {
+		for j, p := range m.other {
+			if p == k {
+				m.other = append(m.other[:j:j], m.other[j+1:]...)
+				break
+			}
+		}
+	}
+	m.dead[k] = true
+	m.keys[k] = tomb{}
+	m.vals[k] = nil
+	m.ndead++
+	if m.ndead > 32 && m.ndead > len(m.keys)/2 {
+		m.compact()
+	}
+}
+
+func (m *smap) compact() {
+	nk, nv := m.keys[:0:0], m.vals[:0:0]
+	m.index = make(map[value]int)
+	m.other = nil
+	for k := range m.keys {
+		if m.dead[k] {
+			continue
+		}
+		pos := len(nk)
+		nk = append(nk, m.keys[k])
+		nv = append(nv, m.vals[k])
+		if simpleKey(m.keys[k]) {
+			m.index[m.keys[k]] = pos
+		} else {
+			m.other = append(m.other, pos)
+		}
+	}
+	m.keys, m.vals = nk, nv
+	m.dead = make([]bool, len(nk))
+	m.ndead = 0
+}
+
+func (m *smap) clear() {
+	m.keys, m.vals, m.dead, m.index, m.other, m.ndead = nil, nil, nil, nil, nil, 0
+}
+
+// liveKeys returns a snapshot of the keys in insertion order.
+func (m *smap) liveKeys() []value {
+	if m == nil {
+		return nil
+	}
+	out := make([]value, 0, m.length())
+	for k := range m.keys {
+		if !m.dead[k] {
+			out = append(out, m.keys[k])
+		}
+	}
+	return out
+}
+
+func (m *smap) clone() *smap {
+	n := &smap{keyT: m.keyT}
+	for k := range m.keys {
+		if m.dead[k] {
+			continue
+		}
+		pos := len(n.keys)
+		n.keys = append(n.keys, m.keys[k])
+		n.vals = append(n.vals, m.vals[k])
+		n.dead = append(n.dead, false)
+		if simpleKey(m.keys[k]) {
+			if n.index == nil {
+				n.index = make(map[value]int)
+			}
+			n.index[m.keys[k]] = pos
+		} else {
+			n.other = append(n.other, pos)
+		}
+	}
+	return n
 }
 
 // smapIter iterates over a snapshot of the keys; entries deleted during
@@ -206,10 +323,14 @@ func (it *smapIter) next() tuple {
 	for it.pos < len(it.keys) {
 		k := it.keys[it.pos]
 		it.pos++
-		// still present? (identity scan; keys are compared concretely when
-		// possible, symbolic keys by term identity)
-		for j := range it.m.keys {
-			if sameKey(it.m.keys[j], k) {
+		if simpleKey(k) {
+			if j, ok := it.m.index[k]; ok {
+				return tuple{true, k, it.m.vals[j]}
+			}
+			continue
+		}
+		for _, j := range it.m.other {
+			if !it.m.dead[j] && sameKey(it.m.keys[j], k) {
 				return tuple{true, k, it.m.vals[j]}
 			}
 		}
